@@ -27,6 +27,7 @@ import (
 	"path/filepath"
 	"sort"
 	"time"
+	_ "time/tzdata" // the embedded zone database, should the host have none
 
 	"github.com/notaryproject/notation-core-go/signature"
 	"github.com/notaryproject/notation-go"
@@ -113,6 +114,8 @@ type Input struct {
 	Tamper           string   `json:"tamper"`
 	EnvelopeLastByte *int     `json:"envelopeLastByte"`
 	TrailingNewline  bool     `json:"trailingNewline"`
+	ExtAttrs         string   `json:"extAttrs"`
+	TimeZone         string   `json:"timeZone"`
 }
 
 // History is what happened before on the shared signer object this round trip uses.
@@ -245,6 +248,26 @@ type signPlugin struct {
 	current  string // abstract key spec name currently behind the key id
 	envelope bool
 	tamper   string // envelope plugin: what it does to the payload it is given (set per call)
+	ext      string // envelope plugin: the extended signed attributes it adds (set per call)
+}
+
+// extended signed attributes an envelope plugin writes of its own (it names no verification plugin)
+func extAttributes(kind string) []signature.Attribute {
+	nc := signature.Attribute{Key: "com.example.kms.keyVersion", Critical: false, Value: "v3"}
+	switch kind {
+	case "", "none":
+		return nil
+	case "nonCritical":
+		return []signature.Attribute{nc}
+	case "severalNonCritical":
+		return []signature.Attribute{nc, {Key: "com.example.kms.region", Critical: false, Value: "eu-1"},
+			{Key: "com.example.build", Critical: false, Value: "4711"}}
+	case "critical":
+		return []signature.Attribute{{Key: "com.example.kms.policy", Critical: true, Value: "must-understand"}}
+	case "criticalAndNonCritical":
+		return []signature.Attribute{nc, {Key: "com.example.kms.policy", Critical: true, Value: "must-understand"}}
+	}
+	panic("c07: extended attributes " + kind)
 }
 
 const keyVersionConfig = "c07.keyVersion"
@@ -345,6 +368,8 @@ func (p *signPlugin) GenerateEnvelope(ctx context.Context, req *pluginfw.Generat
 		SigningTime:   time.Now(),
 		SigningScheme: signature.SigningSchemeX509,
 		SigningAgent:  "c07-plugin/1.0.0",
+
+		ExtendedSignedAttributes: extAttributes(p.ext),
 	}
 	if req.ExpiryDurationInSeconds != 0 {
 		sr.Expiry = sr.SigningTime.Add(time.Duration(req.ExpiryDurationInSeconds) * time.Second)
@@ -554,6 +579,14 @@ func (rd Reader) reader(content []byte) io.Reader {
 }
 
 const copyChunk = 32 * 1024 // io.Copy's buffer; scripted reads never exceed it
+
+var timeZones = []string{"UTC", "America/New_York", "Europe/Berlin", "Australia/Lord_Howe"}
+
+// validities that, from whatever day the run happens on, reach across one daylight-saving change in some zone
+var dstDurations = []time.Duration{time.Hour, 24 * time.Hour, 30 * 24 * time.Hour, 100 * 24 * time.Hour, 2400 * time.Hour,
+	150 * 24 * time.Hour, 200 * 24 * time.Hour, 250 * 24 * time.Hour}
+
+var extKinds = []string{"none", "nonCritical", "severalNonCritical", "critical", "criticalAndNonCritical"}
 
 var tampers = []string{"faithful", "reserialised", "dropAnnotation", "addAnnotation", "changeAnnotation", "changeMediaType", "changeSize", "addUnknownField"}
 
@@ -859,6 +892,7 @@ func (w *world) sign(in Input, content []byte) *signedCase {
 	sso := notation.SignerSignOptions{SignatureMediaType: formatOf[in.Format], ExpiryDuration: time.Duration(in.DurationNs), SigningAgent: in.Agent}
 	if obj.plugin != nil {
 		obj.plugin.tamper = in.Tamper
+		obj.plugin.ext = in.ExtAttrs
 		switch via {
 		case "rotated":
 			// the key behind the key id has been switched since the previous call
@@ -872,6 +906,14 @@ func (w *world) sign(in Input, content []byte) *signedCase {
 	} else if via != "fixed" {
 		panic("c07: local signer needs keyVia fixed")
 	}
+	// the signing process runs in this time zone (time.Now() carries time.Local)
+	loc, err := time.LoadLocation(in.TimeZone)
+	if err != nil {
+		panic(fmt.Sprintf("c07: time zone %q: %v", in.TimeZone, err))
+	}
+	oldLocal := time.Local
+	time.Local = loc
+	defer func() { time.Local = oldLocal }()
 	var sig []byte
 	sigMT := formatOf[in.Format]
 	if in.Kind == "blob" {
@@ -1153,6 +1195,14 @@ func (w *world) genCase(c *common.Ctx) (Input, []byte) {
 	in.Format = pick(c, []string{"jws", "cose"})
 	in.Signer = pick(c, signerKinds)
 	setKeyVia(&in, pick(c, []string{"rotated", "pluginConfig"}))
+	in.TimeZone = "UTC"
+	if chance(c, 0.6) {
+		in.TimeZone = pick(c, timeZones)
+	}
+	in.ExtAttrs = "none"
+	if chance(c, 0.4) {
+		in.ExtAttrs = pick(c, extKinds) // only an envelope plugin adds them; for the others the field must not matter
+	}
 	in.Tamper = "faithful"
 	switch r := c.Rand.Float64(); {
 	case in.Signer != "pluginEnvelope" && r < 0.8:
@@ -1220,6 +1270,9 @@ func (w *world) genCase(c *common.Ctx) (Input, []byte) {
 		in.DurationNs = int64(pick(c, illegalDurations))
 	} else {
 		in.DurationNs = int64(pick(c, legalDurations))
+		if chance(c, 0.3) {
+			in.DurationNs = int64(pick(c, dstDurations))
+		}
 	}
 	return in, content
 }
@@ -1288,6 +1341,10 @@ func count(c *common.Ctx, in Input, o Obs) {
 	if in.Signer == "pluginEnvelope" {
 		c.Count("envelopePluginTamper=" + in.Tamper)
 	}
+	c.Count("timeZone=" + in.TimeZone)
+	if in.Signer == "pluginEnvelope" {
+		c.Count("envelopePluginExtAttrs=" + in.ExtAttrs)
+	}
 	if in.EnvelopeLastByte != nil && o.Signed {
 		c.Count(fmt.Sprintf("coseEnvelopeEndsIn=%#02x", *in.EnvelopeLastByte))
 	}
@@ -1327,6 +1384,7 @@ func Run(c *common.Ctx) error {
 		}
 		in.VerifyMediaType, in.VerifyMetadata = "same", pick(c, []string{"nothing", "all"})
 		in.Tamper = pick(c, []string{"faithful", "reserialised"})
+		in.ExtAttrs = pick(c, []string{"none", "nonCritical"})
 		secs := int64(1 + c.Rand.Intn(2))
 		in.DurationNs = secs * int64(time.Second)
 		in.LagSec = secs + int64(c.Rand.Intn(2))
@@ -1360,6 +1418,7 @@ func Run(c *common.Ctx) error {
 					in.DurationNs = int64(pick(c, legalDurations))
 					setKeyVia(&in, map[string]string{"jws": "rotated", "cose": "pluginConfig"}[f])
 					in.Tamper = pick(c, []string{"faithful", "reserialised", "addAnnotation"})
+					in.ExtAttrs = pick(c, []string{"none", "nonCritical", "severalNonCritical"})
 					in.TrailingNewline = kind == "blob" && f == "jws" && chance(c, 0.5)
 					emit(w.roundTrip(in, content))
 				}
@@ -1378,7 +1437,7 @@ func Run(c *common.Ctx) error {
 			}
 			in.Signer = s
 			setKeyVia(&in, pick(c, []string{"rotated", "pluginConfig"}))
-			in.Tamper, in.TrailingNewline = "faithful", false
+			in.Tamper, in.TrailingNewline, in.ExtAttrs = "faithful", false, "none"
 			in.Metadata = genKV(c, metadataKeys[:3], c.Rand.Intn(2))
 			in.VerifyMediaType, in.VerifyMetadata = "same", "all"
 			in.DurationNs = int64(pick(c, legalDurations))
@@ -1409,6 +1468,7 @@ func Run(c *common.Ctx) error {
 					in, content = w.genCase(c)
 				}
 				in.Signer, in.Format, in.Tamper = "pluginEnvelope", f, t
+				in.ExtAttrs = pick(c, []string{"none", "nonCritical"})
 				setKeyVia(&in, pick(c, []string{"rotated", "pluginConfig"}))
 				in.Metadata = genKV(c, metadataKeys[:7], 1+c.Rand.Intn(3))
 				if kind == "oci" {
@@ -1442,6 +1502,7 @@ func Run(c *common.Ctx) error {
 			in.Signer, in.KeySpec, in.Format = ws.signer, ws.key, "cose"
 			setKeyVia(&in, pick(c, []string{"rotated", "pluginConfig"}))
 			in.Tamper, in.TrailingNewline = pick(c, []string{"faithful", "reserialised"}), false
+			in.ExtAttrs = pick(c, []string{"none", "nonCritical"})
 			in.Metadata = genKV(c, metadataKeys[:7], c.Rand.Intn(3))
 			in.ContentMediaType, in.MediaTypeValid = pick(c, blobMediaTypes), true
 			in.SignReader = genReader(c, len(content), "direct") // signed thousands of times
@@ -1459,11 +1520,55 @@ func Run(c *common.Ctx) error {
 			in.Signer, in.Format, in.TrailingNewline = s, "jws", true
 			setKeyVia(&in, pick(c, []string{"rotated", "pluginConfig"}))
 			in.Tamper = pick(c, []string{"faithful", "reserialised"})
+			in.ExtAttrs = pick(c, []string{"none", "severalNonCritical"})
 			in.Metadata = genKV(c, metadataKeys[:7], c.Rand.Intn(3))
 			in.ContentMediaType, in.MediaTypeValid = pick(c, blobMediaTypes), true
 			in.VerifyMediaType, in.VerifyMetadata = "same", "all"
 			in.DurationNs = int64(pick(c, legalDurations))
 			emit(w.roundTrip(in, content))
+		}
+	}
+
+	// (2e) time zones: signing runs with time.Local set to zones with daylight saving (one of them with a 30-minute
+	// shift) and UTC, validities from an hour to 250 days so that some reach across a change of the UTC offset
+	for zn, z := range timeZones {
+		for dn, d := range dstDurations {
+			in, content := w.genCase(c)
+			in.Signer = []string{"localKey", "localFiles", "pluginSignature", "pluginEnvelope"}[(zn+dn)%4]
+			setKeyVia(&in, pick(c, []string{"rotated", "pluginConfig"}))
+			in.Tamper, in.ExtAttrs, in.TrailingNewline = "faithful", "none", false
+			in.Metadata = []KV{}
+			if in.Kind == "blob" {
+				in.ContentMediaType, in.MediaTypeValid = pick(c, blobMediaTypes), true
+			}
+			in.VerifyMediaType, in.VerifyMetadata = "same", "nothing"
+			in.TimeZone, in.DurationNs = z, int64(d)
+			emit(w.roundTrip(in, content))
+		}
+	}
+
+	// (2f) envelope plugins that add extended signed attributes of their own (no verification plugin named):
+	// non-critical ones must not stand in the way; a critical one nobody processes fails verification
+	for _, x := range extKinds {
+		for _, kind := range []string{"oci", "blob"} {
+			for _, f := range []string{"jws", "cose"} {
+				in, content := w.genCase(c)
+				for in.Kind != kind {
+					in, content = w.genCase(c)
+				}
+				in.Signer, in.Format, in.ExtAttrs = "pluginEnvelope", f, x
+				setKeyVia(&in, pick(c, []string{"rotated", "pluginConfig"}))
+				in.Tamper, in.TrailingNewline = pick(c, []string{"faithful", "reserialised"}), false
+				in.Metadata = genKV(c, metadataKeys[:7], c.Rand.Intn(3))
+				if kind == "oci" {
+					in.Desc.Annotations = genKV(c, []string{"org.opencontainers.image.created", "vendor", "a.b/c"}, c.Rand.Intn(3))
+				} else {
+					in.ContentMediaType, in.MediaTypeValid = pick(c, blobMediaTypes), true
+				}
+				in.VerifyMediaType, in.VerifyMetadata = "same", pick(c, []string{"nothing", "all"})
+				in.DurationNs = int64(pick(c, legalDurations))
+				emit(w.roundTrip(in, content))
+			}
 		}
 	}
 
@@ -1487,6 +1592,9 @@ func Run(c *common.Ctx) error {
 		"full matrix 6 key specs x 2 formats x 4 signers x {oci, blob} plus random cases (legal and illegal metadata / durations / media types, " +
 		"blob sizes 0 B..4 MiB, verification stating the same / no / another media type and none / all / unsigned metadata) plus verification after a short expiry; " +
 		"lagSec is the planned class of the verification delay (0 = before the expiry, ensured by clock alignment and re-tried otherwise). " +
+		"Time zones: signing runs with time.Local set to UTC, America/New_York, Europe/Berlin, Australia/Lord_Howe (host or embedded tzdata), validities 1 h .. 250 d so that some reach across a daylight-saving change; " +
+		"the observed expiry is the difference of the two instants stored in the envelope. " +
+		"Extended attributes: the envelope plugin adds none / one non-critical / several non-critical / a critical / both kinds of extended signed attributes, x {oci, blob} x {jws, cose}. " +
 		"Envelope plugins: the in-process envelope-generator plugin signs the payload faithfully, re-serialised (reverse member order, other white space), or unfaithfully (annotation dropped / appended / changed, " +
 		"media type or size changed, unknown member added) - each way x {oci, blob} x {jws, cose} on descriptors with user metadata, plus random cases. " +
 		"Envelope bytes: SignBlob is repeated on the same signer until the COSE envelope ends in each of 0x20 0x09 0x0a 0x0d 0x0b 0x0c; JWS envelopes are also verified with a line break appended. " +
